@@ -172,13 +172,15 @@ func (sc *SpecCtx) lookup(name string) Value {
 	if v, ok := sc.bound[name]; ok {
 		return v
 	}
-	if v, ok := sc.names[name]; ok {
-		return v
-	}
+	// in loop invariants the current value of a (possibly reassigned or captured) variable
+	// takes precedence over the parameter's entry value
 	if sc.resolver != nil {
 		if v, ok := sc.resolver(name); ok {
 			return v
 		}
+	}
+	if v, ok := sc.names[name]; ok {
+		return v
 	}
 	if v, ok := sc.pkgConst(name); ok {
 		return v
@@ -627,6 +629,19 @@ func (sc *SpecCtx) call(e *Expr) Value {
 	case "map_get": // map_get(m, k): stored value (meaningful when in_dom)
 		m, k := sc.eval(e.Args[0]), sc.eval(e.Args[1])
 		return sc.x.mapGetIn(st, sc.cur, m, k.T)
+	case "dynref": // dynref(x): the pointer held by interface value x
+		v := sc.eval(e.Args[0])
+		if len(v.Fs) == 1 && v.Fs[0].K == VRef {
+			return Value{K: VRef, T: v.Fs[0].T, Ty: v.Fs[0].Ty}
+		}
+		return Value{K: VRef, T: "(iface_int " + v.T + ")", Ty: types.Typ[types.UnsafePointer]}
+	case "param": // param(x): the entry value of parameter x (invariants otherwise see the current value)
+		if len(e.Args) == 1 && e.Args[0].Op == "ident" {
+			if v, ok := sc.names[e.Args[0].Name]; ok {
+				return v
+			}
+		}
+		sc.fail("param() of a non-parameter")
 	case "rangepos":
 		if sc.resolver != nil {
 			if v, ok := sc.resolver("$rangepos"); ok {
